@@ -147,13 +147,21 @@ func (t *ktr) recordLit(e ast.Expr, wantLean string) string {
 		if !ok {
 			t.fail(kv, "field `%s` of %s is not in the struct table", k, nt.Obj().Name())
 		}
-		v, _ := t.expr(kv.Value)
 		given[k] = true
+		if tmpl == "" {
+			continue // a field that is NOT translated (its value is not even inspected)
+		}
+		var v string
+		if kid, isID := kv.Key.(*ast.Ident); isID && t.info.Uses[kid] != nil && isEmptyInterface(t.info.Uses[kid].Type()) {
+			v = t.anyValue(kv.Value)
+		} else {
+			v, _ = t.expr(kv.Value)
+		}
 		parts = append(parts, strings.ReplaceAll(tmpl, "%", v))
 	}
 	var missing []string
-	for f := range sp.fields {
-		if !given[f] {
+	for f, tmpl := range sp.fields {
+		if !given[f] && tmpl != "" {
 			missing = append(missing, f)
 		}
 	}
@@ -162,6 +170,64 @@ func (t *ktr) recordLit(e ast.Expr, wantLean string) string {
 		t.fail(e, "struct literal leaves the fields %v to their zero value", missing)
 	}
 	return "({ " + strings.Join(parts, ", ") + " } : " + sp.lean + ")"
+}
+
+func isEmptyInterface(ty types.Type) bool {
+	it, ok := types.Unalias(ty).Underlying().(*types.Interface)
+	return ok && it.NumMethods() == 0
+}
+
+// anyValue translates an expression stored in a Go `any`: the value tagged with its dynamic
+// type (Acme.GoSem.Any).  A float64 is the marker Any.float64 WITHOUT its value (kernelSpec.
+// opaqueFloat: the expression is not translated — float arithmetic is outside the translator).
+func (t *ktr) anyValue(e ast.Expr) string {
+	e = unparen(e)
+	tv := t.info.Types[e]
+	if tv.Type == nil {
+		t.fail(e, "expression `%s` without a type", exprStr(e))
+	}
+	if tv.IsNil() {
+		return "Acme.GoSem.Any.nil"
+	}
+	if isEmptyInterface(tv.Type) {
+		s, ty := t.expr(e)
+		if ty.k != kAny {
+			t.fail(e, "`%s` stored in an any", exprStr(e))
+		}
+		return s
+	}
+	ty := tv.Type
+	if b, ok := ty.(*types.Basic); ok && b.Info()&types.IsUntyped != 0 {
+		ty = types.Default(ty) // an untyped constant is stored with its default type
+	}
+	b, ok := types.Unalias(ty).(*types.Basic)
+	if !ok {
+		t.fail(e, "value of type %s stored in an any (only bool, int64, uint64, string and — as a marker — float64)", ty)
+	}
+	switch b.Kind() {
+	case types.Float64:
+		if !t.spec.opaqueFloat {
+			t.fail(e, "float64 stored in an any in a kernel without opaqueFloat")
+		}
+		return "Acme.GoSem.Any.float64"
+	case types.Bool:
+		s, _ := t.expr(e)
+		return "(Acme.GoSem.Any.bool " + s + ")"
+	case types.Int64:
+		s, _ := t.expr(e)
+		return "(Acme.GoSem.Any.int64 " + s + ")"
+	case types.Uint64:
+		s, _ := t.expr(e)
+		return "(Acme.GoSem.Any.uint64 " + s + ")"
+	case types.String:
+		s, sty := t.expr(e)
+		if sty.k != kStr {
+			t.fail(e, "string `%s` stored in an any in a kernel without a string type in its type table", exprStr(e))
+		}
+		return "(Acme.GoSem.Any.str " + s + ")"
+	}
+	t.fail(e, "value of type %s stored in an any (only bool, int64, uint64, string and — as a marker — float64)", ty)
+	return ""
 }
 
 // recordListStmt: xs := []*T{} and xs = append(xs, &T{..}) for local lists of records
